@@ -360,6 +360,13 @@ def last_index(k):
 
 
 def run(ctx):
+    if ctx.pid != "C10":
+        # included by another property's check: once per run is enough
+        key = ("c10", getattr(ctx, "rule_suffix", ""))
+        done = ctx.__dict__.setdefault("_groups_done", set())
+        if key in done:
+            return
+        done.add(key)
     ctx.explanation = __doc__
     f = ctx.facts("A")
     roles = zob.Roles(ctx, f)
